@@ -98,7 +98,7 @@ pub fn gen_plan(seed: u64, metas: &[Meta], corpus_len: usize) -> Plan {
     }
     let strategy = if r.chance(0.2) {
         // pile threads up inside one region (a hook site inside MLPG / GV / model lookup / vocoder)
-        Strategy::PileUp { site: *r.pick(&[1u32, 2, 3, 5, 13, 14, 15, 15, 15, 16, 17, 17, 19, 21]), count: nthreads.min(*r.pick(&[2usize, 3, 9, 12, 16])) }
+        Strategy::PileUp { site: *r.pick(&[1u32, 2, 3, 5, 13, 14, 15, 15, 16, 17, 17, 19, 21, 23, 23, 24, 24, 25, 26, 27]), count: nthreads.min(*r.pick(&[2usize, 3, 9, 12, 16])) }
     } else if r.chance(0.25) {
         Strategy::Pct { change_points: vec![] } // filled in once the total number of yield points is known
     } else {
@@ -886,7 +886,7 @@ pub fn cmd_l2a(args: &crate::Args) -> i32 {
         println!("HARNESS-ERROR dead probes: no context switch inside Vocoder::synthesize / MlpgAdjust::create / at op boundaries");
         exit = 2;
     }
-    let site_names = ["op boundary", "generate_step (per frame)", "Vocoder::synthesize (per sample)", "MlpgAdjust::create (per vector index)", "Models::duration (per label)", "Models::stream (per label/state)", "Models::gv (per label)", "generator: before Models::new", "generator: before duration estimation", "generator: before spectrum MLPG", "generator: before lf0 MLPG", "generator: before lpf MLPG", "generator: before SpeechGenerator::new", "MlpgMatrix::solve (after factorization)", "ldl_factorization (per frame)", "GV iteration", "calc_wuw_and_wum (per frame)", "MlpgMatrix::par (GV branch entry)", "duration adjustment loop", "tree search (per node)", "label parsing (per line)", "VoiceSet::weighted (per voice)", "MlpgAdjust::create (after mask)"];
+    let site_names = ["op boundary", "generate_step (per frame)", "Vocoder::synthesize (per sample)", "MlpgAdjust::create (per vector index)", "Models::duration (per label)", "Models::stream (per label/state)", "Models::gv (per label)", "generator: before Models::new", "generator: before duration estimation", "generator: before spectrum MLPG", "generator: before lf0 MLPG", "generator: before lpf MLPG", "generator: before SpeechGenerator::new", "MlpgMatrix::solve (after factorization)", "ldl_factorization (per frame)", "GV iteration", "calc_wuw_and_wum (per frame)", "MlpgMatrix::par (GV branch entry)", "duration adjustment loop", "tree search (per node)", "label parsing (per line)", "VoiceSet::weighted (per voice)", "MlpgAdjust::create (after mask)", "GV gradient loop (per frame)", "GV update loop (per frame)", "GV iteration (after update)", "c2ir (per tap)", "freqt (per coefficient)"];
     let mut sites = J::obj();
     for (k, n) in site_names.iter().enumerate() {
         sites.put(n, J::u(by_site[k]));
